@@ -295,6 +295,37 @@ def late_features(spec, feat):
                     sd.pop(v, None)
             seeds.append(sd)
         spec["seeds"] = seeds
+    times_q = [F(t) for t in spec["times"]]
+    if feat.get("cin_axis") and spec.get("constant_inputs") and n >= 3 and r2.random() < 0.5:
+        # a constant input given on an axis of its own: as many stamps as the grid, the same first and last
+        # stamp, other stamps in between (linear interpolation onto the grid, exact in rationals)
+        c = r2.choice(spec["constant_inputs"])
+        axis = [times_q[0]] + [times_q[i] + (times_q[i + 1] - times_q[i]) * F(r2.randint(1, 3), 4) for i in range(1, n - 1)] + [times_q[-1]]
+        ser = []
+        for m in range(spec["ensemble_size"]):
+            vals = [dy(r2) for _ in axis]
+            grid = []
+            for t in times_q:
+                j = max(i for i in range(n) if axis[i] <= t)
+                if axis[j] == t or j == n - 1:
+                    grid.append(vals[j])
+                else:
+                    w = (t - axis[j]) / (axis[j + 1] - axis[j])
+                    grid.append(vals[j] + (vals[j + 1] - vals[j]) * w)
+            spec["constant_input_values"][m][c] = [str(x) for x in grid]
+            ser.append({c: {"times": [str(t) for t in axis], "values": [str(x) for x in vals]}})
+        spec["constant_input_series"] = ser
+    if feat.get("extra_cin") and (spec.get("path_objective") is not None or spec.get("path_constraints")):
+        # a constant input that is no variable of the model, with its own values per member, used by the
+        # path objective / a path constraint only
+        spec["constant_inputs"] = list(spec.get("constant_inputs", [])) + ["k0"]
+        spec["extra_cin"] = ["k0"]
+        for m in range(spec["ensemble_size"]):
+            spec["constant_input_values"][m]["k0"] = [str(dy(r2) + 10 * m) for _ in range(n)]
+        if spec.get("path_objective") is not None:
+            spec["path_objective"] = ["+", spec["path_objective"], ["*", ["c", str(dy(r2, 1, 3))], ["v", "k0"]]]
+        if spec.get("path_constraints"):
+            spec["path_constraints"][0][0] = ["+", spec["path_constraints"][0][0], ["v", "k0"]]
     pars = spec.get("parameters", [])
     if feat.get("retranscribe") and pars and r2.random() < 0.5:
         # parameters declared dynamic: the problem is transcribed once with other values, then again with
